@@ -1,8 +1,8 @@
 //! Terminal rendering logic
 use crate::{
-    Face, Glyph, Image, ImageHandler, KittyImageHandler, Position, Size, Surface, SurfaceMut,
+    Face, FaceAttrs, Glyph, Image, ImageHandler, KittyImageHandler, Position, Size, Surface, SurfaceMut,
     SurfaceMutView, SurfaceOwned, SurfaceView, Terminal, TerminalCaps, TerminalCommand,
-    TerminalEvent, TerminalSize, TerminalWaker,
+    TerminalEvent, TerminalSize, TerminalWaker, UnderlineStyle,
     decoder::{Decoder, TTYCommandDecoder, Utf8Decoder},
     encoder::{Encoder, TTYEncoder},
     error::Error,
@@ -264,6 +264,10 @@ impl TerminalRenderer {
     }
 
     /// Clear terminal
+    ///
+    /// Forgets what is shown on the terminal, so the next frame repaints
+    /// everything. Content already drawn on the surface for the next frame
+    /// is kept.
     pub fn clear<T: Terminal + ?Sized>(&mut self, term: &mut T) -> Result<(), Error> {
         // erase all images
         for (pos, cell) in self.back.iter().with_position() {
@@ -273,7 +277,6 @@ impl TerminalRenderer {
         }
 
         self.marks.fill(CellMark::Damaged);
-        self.front.fill(Cell::default());
         self.back.fill(Cell::default());
 
         Ok(())
@@ -311,13 +314,23 @@ impl TerminalRenderer {
                 new.kind = CellKind::Image(image);
             }
 
+            // a character that is itself covered (it is behind a wide character
+            // or under an image) is not shown, the columns behind it are not its
+            // own, they only need to be repainted if it was shown before
+            let mark = self.marks.get(pos).copied().unwrap_or_default();
+            let new_mark = if mark == CellMark::Ignored && matches!(new.kind, CellKind::Char(_)) {
+                CellMark::Damaged
+            } else {
+                CellMark::Ignored
+            };
+
             // skip cells that have not changed, go over ignored items too as they
             // might remove old images.
-            if old == new && self.marks.get(pos) != Some(&CellMark::Damaged) {
+            if old == new && mark != CellMark::Damaged {
                 // cells under the image and behind the wide character need to
                 // be marked as ignored
                 let (rows, cols) = cell_extent(new, pos, pixels_per_cell);
-                self.marks.view_mut(rows, cols).fill(CellMark::Ignored);
+                self.marks.view_mut(rows, cols).fill(new_mark);
                 continue;
             }
 
@@ -333,7 +346,7 @@ impl TerminalRenderer {
                 self.images.push((pos, new.face, image.clone()));
             }
             let (rows, cols) = cell_extent(new, pos, pixels_per_cell);
-            self.marks.view_mut(rows, cols).fill(CellMark::Ignored);
+            self.marks.view_mut(rows, cols).fill(new_mark);
         }
 
         // Second pass
@@ -393,8 +406,14 @@ impl TerminalRenderer {
                         }
                     }
                     pos.col += repeats;
-                    // erase if it is more efficient
-                    if repeats > 4 {
+                    // erase if it is more efficient, erased cells only get
+                    // the background color so it cannot replace spaces of the
+                    // face with attributes that are visible on empty cells
+                    let attrs = new.face.attrs;
+                    let erasable = attrs.underline() == UnderlineStyle::None
+                        && !attrs.contains(FaceAttrs::REVERSE)
+                        && !attrs.contains(FaceAttrs::STRIKE);
+                    if repeats > 4 && erasable {
                         // NOTE: erase is not moving cursor
                         term.execute(TerminalCommand::EraseChars(repeats))?;
                     } else {
@@ -646,9 +665,9 @@ where
     fn write(&mut self, buf: &[u8]) -> std::io::Result<usize> {
         let mut cur = std::io::Cursor::new(buf);
         while let Some(ch) = self.decoder.decode(&mut cur)? {
-            if !self.parent.put_char(ch) {
-                return Ok(buf.len());
-            }
+            // keep decoding even if parent is out of space, otherwise state of the
+            // decoder would depend on how data is split between writes
+            self.parent.put_char(ch);
         }
         Ok(cur.position() as usize)
     }
@@ -925,9 +944,9 @@ impl std::io::Write for TerminalWriter<'_> {
     fn write(&mut self, buf: &[u8]) -> std::io::Result<usize> {
         let mut cur = std::io::Cursor::new(buf);
         while let Some(ch) = self.decoder.decode(&mut cur)? {
-            if !self.put_char(ch) {
-                return Ok(buf.len());
-            }
+            // keep decoding even if writer is out of space, otherwise state of the
+            // decoder would depend on how data is split between writes
+            self.put_char(ch);
         }
         Ok(cur.position() as usize)
     }
